@@ -54,24 +54,32 @@ impl Environment {
         env
     }
 
+    /// The key of a variable in the version maps. It must identify the pair
+    /// (name, suffix): the debug form `name_suffix` does not, since `x` with
+    /// suffix `0` and the identifier `x_0` print alike. Identifiers cannot
+    /// contain `.`, so `name.suffix` is unambiguous.
+    fn version_key(name: &VariableName) -> String {
+        match name.suffix() {
+            Some(suffix) => format!("{}.{}", name.name(), suffix),
+            None => name.name().to_string(),
+        }
+    }
+
     /// Gets the current (scoped) version of the variable.
     pub fn get_current_version(&self, name: &VariableName) -> Option<Version> {
-        // Need to use format to include the suffix.
-        let name = format!("{:?}", name.without_version());
+        let name = Self::version_key(name);
         self.scoped_versions.get_variable(&name).cloned()
     }
 
     /// Gets the range of versions seen for the variable.
     pub fn get_version_range(&self, name: &VariableName) -> Option<Range<Version>> {
-        // Need to use format to include the suffix.
-        let name = format!("{:?}", name.without_version());
+        let name = Self::version_key(name);
         self.global_versions.get_variable(&name).map(|max| 0..(max + 1))
     }
 
     /// Gets the version to apply for a newly assigned variable.
     fn get_next_version(&mut self, name: &VariableName) -> Version {
-        // Need to use format to include the suffix.
-        let name = format!("{:?}", name.without_version());
+        let name = Self::version_key(name);
         let version = match self.global_versions.get_variable(&name) {
             // The variable has not been seen before. This is version 0 of the variable.
             None => 0,
